@@ -31,6 +31,7 @@ var decModes = []int{1, 2, 3, 4, 5, 6, 7, 8, 25, 1000, 1002, 1003, 1006, 1007, 1
 var ansiModes = []int{2, 4, 12, 20, 0, 7}
 
 type genr struct {
+	jobs   []emuh.Job
 	r      *hx.Run
 	rng    *gen.Rng
 	hangs  int
@@ -188,43 +189,48 @@ func (g *genr) size(width bool) int {
 	}
 }
 
-// runCase executes ops on a fresh emulator, emitting every line, until one panics/hangs.
+// queue a case; the ops are generated up front (sizes tracked through resizes).
 func (g *genr) runCase(id string, w, h int, next func(i int, w, h int) (string, bool)) {
-	t := &emuh.Term{}
-	defer t.Close()
-	g.r.Case(id)
-	res := t.New(w, h)
-	g.r.Emit(fmt.Sprintf("new %d %d", w, h), res)
-	if t.Dead {
-		return
-	}
+	var ops []string
+	w0, h0 := w, h
 	for i := 0; ; i++ {
 		op, ok := next(i, w, h)
 		if !ok {
-			return
+			break
 		}
-		res, understood := t.Apply(op)
-		if !understood {
-			g.r.Emit(op, "bad-op")
-			return
-		}
-		g.r.Emit(op, res)
+		ops = append(ops, op)
 		f := strings.Fields(op)
-		g.r.Count("op:" + f[0])
-		if f[0] == "resize" {
+		if len(f) == 3 && f[0] == "resize" {
 			fmt.Sscanf(f[1]+" "+f[2], "%d %d", &w, &h)
 		}
-		if t.Dead {
-			g.r.Count("outcome:" + res)
-			if res == "hang" {
-				g.hangs++
-			} else {
-				g.panics++
-				g.r.Count("panic-msg:" + firstLine(t.PanicMsg))
+	}
+	g.jobs = append(g.jobs, emuh.Job{ID: id, W: w0, H: h0, Ops: ops})
+	if len(g.jobs) >= 3000 {
+		g.flush()
+	}
+}
+
+func (g *genr) flush() {
+	for i, res := range emuh.RunCases(g.jobs, 12) {
+		g.r.Case(g.jobs[i].ID)
+		for _, l := range res.Lines {
+			g.r.Emit(l[0], l[1])
+			if f := strings.Fields(l[0]); len(f) > 0 {
+				g.r.Count("op:" + f[0])
 			}
-			return
+		}
+		switch res.Outcome {
+		case "":
+		case "hang":
+			g.hangs++
+			g.r.Count("outcome:hang")
+		default:
+			g.panics++
+			g.r.Count("outcome:" + res.Outcome)
+			g.r.Count("panic-msg:" + firstLine(res.PanicMsg))
 		}
 	}
+	g.jobs = g.jobs[:0]
 }
 
 func firstLine(s string) string {
@@ -282,11 +288,12 @@ func run(r *hx.Run) error {
 		})
 		r.Count("case:corpus")
 	}
+	g.flush()
 	// 2. grammar-generated sequences
-	cases := 12000
+	cases := 8000
 	maxOps := 30
 	if r.Thorough {
-		cases = 250000
+		cases = 80000
 		maxOps = 40
 	}
 	for c := 0; c < cases; c++ {
@@ -301,9 +308,9 @@ func run(r *hx.Run) error {
 		r.Count("case:generated")
 	}
 	// 3. raw bytes through the real parser
-	fuzz := 3000
+	fuzz := 2000
 	if r.Thorough {
-		fuzz = 60000
+		fuzz = 20000
 	}
 	for c := 0; c < fuzz; c++ {
 		data := g.rawBytes()
@@ -340,6 +347,7 @@ func run(r *hx.Run) error {
 		})
 		r.Count("case:rawfuzz")
 	}
+	g.flush()
 	r.Note("hangs", g.hangs)
 	r.Note("panics", g.panics)
 	return nil
